@@ -76,6 +76,9 @@ pub fn gen_keys(rng: &mut Rng, related: &[RName]) -> Vec<Key> {
         };
         let alg = if rng.bool() { Alg::Sha1 } else { Alg::Sha256 };
         let len = *rng.pick(&[1usize, 16, 20, 32, 64, 65, 100]);
+        if keys.iter().any(|k: &Key| k.name.eq_ci(&name)) {
+            continue; // key names are unique (the server keeps one key per name)
+        }
         keys.push(Key { name, alg, secret: rng.bytes(len) });
     }
     keys
@@ -628,6 +631,73 @@ fn response_class(m: &Msg) -> String {
     )
 }
 
+/// A name whose wire form is exactly `wire_len` octets (2..=255).
+pub fn name_of_wire_len(rng: &mut Rng, wire_len: usize) -> RName {
+    let mut remaining = wire_len.saturating_sub(1); // the root label
+    let mut labels = Vec::new();
+    while remaining > 0 {
+        // a label of n data octets takes n + 1 octets
+        let take = if remaining <= 64 { remaining } else if remaining == 65 { 63 } else { 64 };
+        let data = take - 1;
+        if data == 0 {
+            break;
+        }
+        labels.push((0..data).map(|_| *rng.pick(b"qrs")).collect::<Vec<u8>>());
+        remaining -= take;
+    }
+    RName(labels)
+}
+
+/// C01: sweeps the size of TSIG exchanges octet by octet across the
+/// response size limit (question length x key-name length x TSIG
+/// outcome), where space reservations for the TSIG record matter.
+fn tsig_size_sweep(rep: &mut Report, rng: &mut Rng) {
+    let key_len = *rng.pick(&[5usize, 40, 120, 200, 210, 230, 255]);
+    let key = Key { name: name_of_wire_len(rng, key_len), alg: if rng.bool() { Alg::Sha1 } else { Alg::Sha256 }, secret: rng.bytes(32) };
+    let cfg = ServerCfg { payload: *rng.pick(&[512u16, 600, 1232]), rrl: None, keys: vec![key.clone()] };
+    let server = make_server(Arc::new(QCatalog::new()), &cfg);
+    let mut bufs = Buffers::new(cfg.payload);
+    let now = now_unix();
+    for variant in 0..5 {
+        for edns in [None, Some(512u16), Some(cfg.payload)] {
+            for l in 2..=255usize {
+                let qn = name_of_wire_len(rng, l);
+                let mut spec = MsgSpec { id: rng.u16(), ..Default::default() };
+                spec.questions.push((Some(NameEnc::Plain(qn)), T_A, C_IN));
+                if let Some(p) = edns {
+                    spec.additionals.push(opt_record(p, 0, 0, 0, Vec::new()));
+                }
+                let (base, _) = encode(&spec);
+                let mut o = SignOpts::at(now);
+                match variant {
+                    0 => {}
+                    1 => o.time = now - 100_000,
+                    2 => o.corrupt_mac = true,
+                    3 => o.key_name_override = Some(name_of_wire_len(rng, key_len.max(3) - 1)),
+                    _ => o.mac_len = Some(5),
+                }
+                let (req, _, _) = sign_request(&base, &key, &o);
+                rep.eval();
+                match handle(&server, &req, LOCALHOST, false, &mut bufs) {
+                    Ok(resp) => {
+                        let len = resp.as_ref().map(|r| r.len()).unwrap_or(0);
+                        rep.class(&format!("sweep:v{}:edns{}:len{}", variant, edns.is_some() as u8, len / 16));
+                    }
+                    Err(pi) => {
+                        rep.violation(
+                            format!("c01:{}", pi.signature()),
+                            format!("handle_message panicked at {}: {} (TSIG size sweep: variant {}, QNAME of {} octets, key name of {} octets, request {})", pi.location, pi.message, variant, l, key_len, hex(&req)),
+                            Json::obj(vec![("request", Json::hex(&req)), ("key_name", Json::hex(&key.name.wire())), ("key_secret", Json::hex(&key.secret)), ("key_alg", Json::s(format!("{:?}", key.alg))), ("server_payload", Json::Int(cfg.payload as i128))]),
+                        );
+                        return;
+                    }
+                }
+            }
+        }
+    }
+    rep.hist("tsig-size-sweeps");
+}
+
 /// Exhaustive header words for C03 (every flag/opcode/rcode combination).
 fn c03_header_sweep(ctx: &Ctx, rep: &mut Report) {
     let mut rng = ctx.rng("c03-sweep", 0);
@@ -694,6 +764,9 @@ pub fn run(ctx: &Ctx, rep: &mut Report, prop: &str) {
         if prop == "c05" {
             run_c05(rep, &mut rng, &mut sc);
             continue;
+        }
+        if prop == "c01" && !ctx.is_miri() && case % 16 == 5 {
+            tsig_size_sweep(rep, &mut rng);
         }
         let per = if ctx.is_miri() { 6 } else { per_scenario };
         for _ in 0..per {
